@@ -73,6 +73,7 @@
 //! # }
 //! ```
 
+use crate::node::SharedNode;
 use crate::port::details::data_segment_shared_state::DataSegmentSharedState;
 use crate::port::port_name::PortName;
 use crate::port::update_connections::UpdateConnections;
@@ -150,6 +151,9 @@ pub struct SharedServerState<Service: service::Service> {
     // Otherwise the process might crash during cleanup, has already removed the tag but other resources
     // are still existing. This would make a cleanup from another process impossible.
     port_tag: Service::StaticStorage,
+    // Keeps the node alive until the port tag is removed. If the port is the last owner of the
+    // node, the node could otherwise not remove its directory since it still contains the tag.
+    _shared_node: SharedNode<Service>,
 }
 
 impl<Service: service::Service> DataSegmentSharedState for SharedServerState<Service> {
@@ -203,6 +207,7 @@ impl<Service: service::Service> Abandonable for SharedServerState<Service> {
         unsafe { Receiver::abandon_in_place(NonNull::from_mut(&mut this.request_receiver)) };
         unsafe { SharedServiceState::abandon_in_place(NonNull::from_mut(&mut this.service_state)) };
         unsafe { Service::StaticStorage::abandon_in_place(NonNull::from_mut(&mut this.port_tag)) };
+        unsafe { SharedNode::abandon_in_place(NonNull::from_mut(&mut this._shared_node)) };
     }
 }
 
@@ -391,6 +396,7 @@ impl<
                         "{msg} since the port tag, that is required for cleanup, could not be created. [{e:?}]");
             }
         };
+        let shared_node = service.shared_node().clone();
 
         let static_config = server_factory.factory.static_config();
         let number_of_requests_per_client =
@@ -512,6 +518,7 @@ impl<
 
         let shared_state = Service::ArcThreadSafetyPolicy::new(SharedServerState {
             port_tag,
+            _shared_node: shared_node,
             config: server_factory.config,
             request_receiver,
             client_list_state: UnsafeCell::new(unsafe { client_list.get_state() }),
